@@ -70,6 +70,7 @@ fn pin_geometry(ctx: &WorkerCtx) -> Result<(), Fail> {
                             p.sq[bk as usize] = Some((C::Black, P::King));
                             for pos in [p.clone(), p.mirror()] {
                                 let legal = pos.legal();
+                                ctx.about_to_run(&case_json(&PlayCase { root: Root::Fen(pos.fen()), half: 0, full: 0, choices: vec![], aux: 0 }));
                                 let res = guarded(|| -> Result<(), String> {
                                     let b = to_board(&pos)?;
                                     let gen = gen_moves(&b);
@@ -100,6 +101,7 @@ fn pin_geometry(ctx: &WorkerCtx) -> Result<(), Fail> {
     if ctx.idx == 1 % ctx.n {
         let check = |pos: &Pos, st: &mut Stats| -> Result<(), Fail> {
             let legal = pos.legal();
+            ctx.about_to_run(&case_json(&PlayCase { root: Root::Fen(pos.fen()), half: 0, full: 0, choices: vec![], aux: 0 }));
             let res = guarded(|| -> Result<(), String> {
                 let b = to_board(pos)?;
                 let gen = gen_moves(&b);
